@@ -52,6 +52,14 @@ pub struct RunOut {
     pub skeleton_words: Option<u64>,
     /// non-zero return codes of run_dsp (sample index, code)
     pub bad_rc: Vec<(u64, i64)>,
+    /// leaves of the published dsp state skeleton: (offset, size in words, kind 0=feed 1=mem 2=delay)
+    pub leaves: Vec<(usize, usize, u8)>,
+    /// number of call nodes with >= 1 child below the root (nesting of stateful calls)
+    pub skeleton_calls: usize,
+    /// per sample: recorded state accesses (kind 0 read / 1 write / 2 ring, on the dsp storage?, cursor, size)
+    pub trace: Vec<Vec<(u8, bool, usize, usize)>>,
+    /// length of the VM's dsp state storage after each sample
+    pub storage_len: Vec<usize>,
 }
 
 #[derive(Debug)]
@@ -71,6 +79,27 @@ pub struct RunOpts {
     pub sched: bool,
     pub want_state: bool,
     pub want_counts: bool,
+    pub want_trace: bool,
+}
+
+/// leaves of a state skeleton with their flat offsets
+pub fn skeleton_leaves(sk: &state_tree::tree::StateTreeSkeleton<mimium_lang::mir::StateType>, base: usize, out: &mut Vec<(usize, usize, u8)>, calls: &mut usize, depth: usize) {
+    use state_tree::tree::{SizedType, StateTreeSkeleton as Sk};
+    match sk {
+        Sk::Feed(t) => out.push((base, t.word_size() as usize, 0)),
+        Sk::Mem(t) => out.push((base, t.word_size() as usize, 1)),
+        Sk::Delay { len } => out.push((base, *len as usize + 2, 2)),
+        Sk::FnCall(cs) => {
+            if depth > 0 && !cs.is_empty() {
+                *calls += 1;
+            }
+            let mut off = base;
+            for c in cs {
+                skeleton_leaves(c, off, out, calls, depth + 1);
+                off += c.total_size() as usize;
+            }
+        }
+    }
 }
 
 pub fn canon(bits: u64) -> u64 {
@@ -92,6 +121,11 @@ pub fn run_vm(src: &str, inputs: &Inputs, o: &RunOpts) -> Exec {
         Ok(Ok(())) => {}
     }
     let skeleton_words = ctx.get_vm().and_then(|vm| vm.prog.get_dsp_state_skeleton().map(|s| s.total_size()));
+    let mut leaves = vec![];
+    let mut skeleton_calls = 0usize;
+    if let Some(sk) = ctx.get_vm().and_then(|vm| vm.prog.get_dsp_state_skeleton()) {
+        skeleton_leaves(sk, 0, &mut leaves, &mut skeleton_calls, 0);
+    }
     if let Err(p) = panics::catch(|| {
         let _ = ctx.run_main();
     }) {
@@ -103,9 +137,13 @@ pub fn run_vm(src: &str, inputs: &Inputs, o: &RunOpts) -> Exec {
         Ok(Ok(rd)) => rd,
     };
     let Some(io) = rd.io_channels() else { return Exec::NoIo };
-    let mut out = RunOut { n_in: io.input, n_out: io.output, skeleton_words, ..Default::default() };
+    let mut out = RunOut { n_in: io.input, n_out: io.output, skeleton_words, leaves, skeleton_calls, ..Default::default() };
     for t in 0..o.n {
         count.store(t, Ordering::Relaxed);
+        #[cfg(feature = "hooks")]
+        if o.want_trace {
+            mimium_lang::runtime::vm::verif_hooks::start_trace();
+        }
         let inp: Vec<f64> = (0..io.input as usize).map(|c| inputs.at(t, c)).collect();
         let r = panics::catch(|| {
             rd.set_input(&inp);
@@ -121,14 +159,20 @@ pub fn run_vm(src: &str, inputs: &Inputs, o: &RunOpts) -> Exec {
                 out.samples.push(words);
             }
         }
-        if o.want_state || o.want_counts {
+        if o.want_state || o.want_counts || o.want_trace {
             if let Some(v) = rd.downcast_runtime_ref::<VmDspRuntime>() {
                 if o.want_counts {
                     out.counts.push((v.vm.closures.len(), v.vm.heap.len()));
                 }
                 #[cfg(feature = "hooks")]
-                if o.want_state {
+                if o.want_state || o.want_trace {
                     let (w, pos) = v.vm.verif_global_state();
+                    if o.want_trace {
+                        let gp = w.as_ptr() as usize;
+                        let tr = mimium_lang::runtime::vm::verif_hooks::take_trace();
+                        out.trace.push(tr.iter().map(|a| (a.kind, a.storage == gp, a.pos, a.size)).collect());
+                        out.storage_len.push(w.len());
+                    }
                     out.state.push(w.to_vec());
                     out.cursor.push(pos);
                 }
